@@ -21,6 +21,7 @@
 #include <cstdlib>
 #include <cstring>
 #include <unistd.h>
+#include <dirent.h>
 
 #include "node.h"
 #include "config.h"
@@ -42,7 +43,18 @@ public:
 	}
 };
 
-static char fname[64];
+static char fname[64], fname2[64], fmissing[64];
+
+/* open descriptors of the process */
+static size_t count_fds(void)
+{
+	size_t n = 0;
+	DIR *d = opendir("/proc/self/fd");
+	if (!d) return 0;
+	while (readdir(d)) n++;
+	closedir(d);
+	return n;
+}
 
 uint64_t vf_cases(void) { return vf_thorough ? 500000 : 40000; }
 
@@ -78,6 +90,8 @@ void vf_case(uint64_t idx, vf_rng *r)
 		{ 0x10, 0x06 },            /* "Esc"  parse_config */
 		{ 0x00, 0x07 },            /* "ns"   mpt_node_parse default */
 	};
+	size_t fds_before = count_fds();
+	{
 	P p;
 	unsigned sect, opt;
 	char fl[16];
@@ -95,12 +109,17 @@ void vf_case(uint64_t idx, vf_rng *r)
 	if (sect == 0xff) strcpy(fl, "(all)"); else c09_flags_string(fl, sect, opt);
 	if (!keep_defaults) p.flags((uint16_t) sect, (uint16_t) opt);
 	else vf_count("flags:config_parser-defaults", 1);
-	if (!fname[0]) snprintf(fname, sizeof(fname), "c09cxx-%ld.conf", (long) getpid());
+	if (!fname[0]) {
+		snprintf(fname, sizeof(fname), "c09cxx-%ld.conf", (long) getpid());
+		snprintf(fname2, sizeof(fname2), "c09cxx-%ld-b.conf", (long) getpid());
+		snprintf(fmissing, sizeof(fmissing), "c09cxx-%ld-missing.conf", (long) getpid());
+	}
 
 	for (int round = 0; round < rounds; round++) {
 		tnode *root = c09_t_new(1);
 		gen g;
-		render ro;
+		render ro, ro2;
+		const bytes *cur;               /* text of the file the parser has open */
 		vf_rng deco;
 		char desc[220];
 		int passes, mode;
@@ -132,9 +151,17 @@ void vf_case(uint64_t idx, vf_rng *r)
 		ro.f = f; ro.mode = mode; ro.r = &deco;
 		c09_render_doc(&ro, root);
 
-		/* file in the work directory of the harness */
+		/* the same tree in another rendering: file to switch to */
+		memset(&ro2, 0, sizeof(ro2));
+		ro2.f = f; ro2.mode = (mode + 1 + (int) vf_below(r, 2)) % 3; ro2.r = &deco;
+		c09_render_doc(&ro2, root);
+
+		/* files in the work directory of the harness */
 		if (!(fp = fopen(fname, "wb")) || fwrite(ro.out.d, 1, ro.out.n, fp) != ro.out.n || fclose(fp)) {
 			vf_inconclusive("cannot write %s", fname);
+		}
+		if (!(fp = fopen(fname2, "wb")) || fwrite(ro2.out.d, 1, ro2.out.n, fp) != ro2.out.n || fclose(fp)) {
+			vf_inconclusive("cannot write %s", fname2);
 		}
 		if (vf_logging) {
 			vf_log("%s, %zu bytes in %s:", desc, ro.out.n, fname);
@@ -161,6 +188,7 @@ void vf_case(uint64_t idx, vf_rng *r)
 			vf_count("parser::open", 1);
 			ok = p.open(fname);
 			VF_CHECK(ok, "model:cxx:open-failed", "%s: open(%s) failed", desc, fname);
+			cur = &ro.out;
 
 			for (int pass = 0; pass < passes; pass++) {
 				const char *phase = round ? "cxx-new-format" : "cxx-read";
@@ -170,23 +198,56 @@ void vf_case(uint64_t idx, vf_rng *r)
 				char refdesc[48] = "";
 				cmp c;
 
-				if (pass) {
-					if (vf_chance(r, 1, 4)) {
+				int refused_open = 0, must_reopen = 0;
+				char opendesc[64] = "";
+
+				/* open() of something that cannot be opened: false, and nothing changes */
+				if (vf_chance(r, 1, 3)) {
+					static const char *const bad[] = { 0, "", ".", "no-such-dir/file.conf", "/" };
+					uint32_t k = vf_below(r, 5);
+					const char *name = k ? bad[k] : fmissing;
+					snprintf(opendesc, sizeof(opendesc), " after open(\"%s\")", name);
+					vf_at("parser::open");
+					vf_count("parser::open", 1);
+					ok = p.open(name);
+					if (ok) {
+						/* a directory can be opened for reading: the parser has switched to it */
+						vf_count("open:unreadable-target-accepted", 1);
+						must_reopen = 1;
+					} else {
+						vf_count("open:refused", 1);
+						refused_open = 1;
+					}
+				}
+				else if (pass && vf_chance(r, 1, 10)) {
+					/* close, to be opened again */
+					vf_at("parser::open");
+					ok = p.open(0);
+					VF_CHECK(ok, "model:cxx:close-failed", "%s: pass %d: open(0) failed", desc, pass + 1);
+					vf_count("open:closed", 1);
+					must_reopen = 1;
+				}
+				if (pass || must_reopen) {
+					if (must_reopen || vf_chance(r, 1, 4)) {
+						int other = vf_chance(r, 1, 2);
 						phase = "cxx-reopen";
 						how = 2;
 						vf_at("parser::open");
 						vf_count("parser::open", 1);
-						ok = p.open(fname);
-						VF_CHECK(ok, "model:cxx:open-failed", "%s: pass %d: open(%s) failed", desc, pass + 1, fname);
+						ok = p.open(other ? fname2 : fname);
+						VF_CHECK(ok, "model:cxx:open-failed", "%s: pass %d: open(%s)%s failed", desc, pass + 1, other ? fname2 : fname, opendesc);
+						cur = other ? &ro2.out : &ro.out;
+						if (other) vf_count("open:switched-to-other-file", 1);
 					} else {
 						phase = "cxx-reset";
 						how = 1;
 						vf_at("config_parser::reset");
 						vf_count("config_parser::reset", 1);
 						ok = p.reset();
-						VF_CHECK(ok, "model:cxx:reset-failed", "%s: pass %d: reset() failed", desc, pass + 1);
+						VF_CHECK(ok, "model:cxx:reset-failed", "%s: pass %d: reset()%s failed", desc, pass + 1, opendesc);
 					}
 				}
+				if (refused_open) phase = "cxx-after-refused-open";
 				/* a refused format must leave the parser as it is */
 				if (vf_chance(r, 2, 5)) {
 					for (int k = vf_range(r, 1, 2); k > 0; k--) {
@@ -200,18 +261,18 @@ void vf_case(uint64_t idx, vf_rng *r)
 						vf_xfree(bad, size);
 					}
 					refused = 1;
-					phase = "cxx-after-refused-format";
+					if (!refused_open) phase = "cxx-after-refused-format";
 				}
 				memset(&c, 0, sizeof(c));
 				c.phase = phase;
 				c.style = c09_style_name[f->style];
 				c.fstyle = f->style;
 				c.desc = desc;
-				c.text = &ro.out;
+				c.text = cur;
 				{
 					mpt::node fresh;
 					mpt::node &to = reuse_node ? kept : fresh;
-					vf_fp_u64(((uint64_t) how << 1) | (uint64_t) reuse_node | ((uint64_t) refused << 4));
+					vf_fp_u64(((uint64_t) how << 1) | (uint64_t) reuse_node | ((uint64_t) refused << 4) | ((uint64_t) refused_open << 5) | ((uint64_t) (cur == &ro2.out) << 6));
 					vf_log("pass %d (%s, %s node%s%s)", pass + 1, phase, reuse_node ? "used" : "fresh", refused ? ", after refused set_format " : "", refdesc);
 					vf_at("parser::read");
 					vf_count("parser::read", 1);
@@ -219,11 +280,11 @@ void vf_case(uint64_t idx, vf_rng *r)
 					vf_log(" = %d line=%zu", ret, p.line());
 					if (ret < 0) {
 						vf_fail(c09_mkkey(&c, "rejected"), "%s: pass %d of %d%s%s: read() returned %d at line %zu; text: %s",
-						        desc, pass + 1, passes, refused ? " after refused set_format " : "", refdesc, ret, p.line(), c09_excerpt(&ro.out));
+						        desc, pass + 1, passes, refused ? " after refused set_format " : "", refdesc, ret, p.line(), c09_excerpt(cur));
 					}
 					if (root->nchild && !to.children) {
 						vf_fail(c09_mkkey(&c, "empty-result"), "%s: pass %d of %d: read() returned %d (success) but the node has no children, %zu expected; text: %s",
-						        desc, pass + 1, passes, ret, root->nchild, c09_excerpt(&ro.out));
+						        desc, pass + 1, passes, ret, root->nchild, c09_excerpt(cur));
 					}
 					c09_compare(&c, root, &to, to.children);
 					vf_count("monitor:names-compared", c.names);
@@ -231,6 +292,9 @@ void vf_case(uint64_t idx, vf_rng *r)
 					vf_count("monitor:links-compared", c.links);
 					vf_count(!how ? "monitor:trees-equal:first-read" : how == 1 ? "monitor:trees-equal:after-reset" : "monitor:trees-equal:after-reopen", 1);
 					if (refused) vf_count("monitor:trees-equal:read-after-refused-set_format", 1);
+					if (refused_open) vf_count("monitor:trees-equal:read-after-refused-open", 1);
+					if (refused_open && how == 1) vf_count("monitor:trees-equal:reset+read-after-refused-open", 1);
+					if (cur == &ro2.out) vf_count("monitor:trees-equal:other-file", 1);
 					if (round) vf_count("monitor:trees-equal:after-format-change", 1);
 					if (reuse_node) vf_count("state:read-into-used-node", 1);
 				}
@@ -247,7 +311,17 @@ void vf_case(uint64_t idx, vf_rng *r)
 		if (g.nodes >= 3 && (g.sections || f->style == StyleSeparated)) vf_nontrivial();
 		if (idx < 64 && !round) vf_sample("%s, %d passes | text: %s", desc, passes, c09_excerpt(&ro.out));
 		free(ro.out.d);
+		free(ro2.out.d);
 		c09_t_free(root);
 	}
 	unlink(fname);
+	unlink(fname2);
+	}
+	/* the parser object is gone: every stream it opened must be closed */
+	{
+		size_t fds_after = count_fds();
+		VF_CHECK(fds_after == fds_before, "model:cxx:descriptor-leak", "%zu open descriptors before the case, %zu after the parser object was destroyed",
+		         fds_before, fds_after);
+		vf_count("monitor:descriptor-count-compared", 1);
+	}
 }
